@@ -401,7 +401,11 @@ func IsErrWrap(v ssa.Value) (inner ssa.Value, ok bool) {
 
 // NonNilAt: v is provably a non-nil error at instruction `at`.
 func NonNilAt(v ssa.Value, at ssa.Instruction, depth int) bool {
-	if depth > 6 || v == nil {
+	return nonNilAt(v, at, depth, map[ssa.Value]bool{})
+}
+
+func nonNilAt(v ssa.Value, at ssa.Instruction, depth int, onStack map[ssa.Value]bool) bool {
+	if depth > 8 || v == nil {
 		return false
 	}
 	if IsNilConst(v) {
@@ -413,21 +417,25 @@ func NonNilAt(v ssa.Value, at ssa.Instruction, depth int) bool {
 	if in, ok := IsErrWrap(v); ok {
 		def, isInstr := v.(ssa.Instruction)
 		if isInstr {
-			return NonNilAt(in, def, depth+1)
+			return nonNilAt(in, def, depth+1, onStack)
 		}
 		return false
 	}
 	if OnNonNilEdge(v, at) {
 		return true
 	}
-	if mi, ok := v.(*ssa.MakeInterface); ok {
-		_ = mi
+	if _, ok := v.(*ssa.MakeInterface); ok {
 		return true // a concrete value boxed into error is non-nil as an interface
 	}
 	if phi, ok := v.(*ssa.Phi); ok {
+		if onStack[phi] {
+			return true // loop-carried: non-nil if every entry edge is (coinduction)
+		}
+		onStack[phi] = true
+		defer delete(onStack, phi)
 		for i, e := range phi.Edges {
 			pred := phi.Block().Preds[i]
-			if len(pred.Instrs) == 0 || !NonNilAt(e, pred.Instrs[len(pred.Instrs)-1], depth+1) {
+			if len(pred.Instrs) == 0 || !nonNilAt(e, pred.Instrs[len(pred.Instrs)-1], depth+1, onStack) {
 				return false
 			}
 		}
